@@ -5,7 +5,7 @@
 (* Acts selects the families of calls of one focused configuration.         *)
 EXTENDS Storage
 
-CONSTANTS Acts,       \* families of calls enabled: subset of {"groups","relays","secrets","msgs","proc","welcomes","mls","leaves","glob","snaps","reads"}
+CONSTANTS Acts,       \* families of calls enabled: subset of {"groups","relays","secrets","msgs","proc","welcomes","gd","props","ekp","leaves","glob","snaps","reads"}
           Nids, Epochs, Ptrs,      \* group record: nostr ids, epochs, last-message pointers (message ids, -1 = none)
           Relays, SecEpochs, SecVals,      \* relay urls (every subset is tried)
           MsgIds, CAs, PAs, MsgEpochs, MsgStates, Tags,
@@ -27,10 +27,13 @@ PWRec(w, st) == [w |-> w, wid |-> -1, pa |-> 20, st |-> st, fr |-> ""]
 \* pools given in the cfg hold the non-negative values; -1 ("none" / "not given") and the huge-offset codes are added here
 NegOffs == {-1, -2, -3, -4}
 
-MCInit == Init /\ leafSeq = LeafStart
+\* Nids = {}: every group keeps one nostr id of its own
+NidChoices(g) == IF Nids = {} THEN {"n" \o g} ELSE Nids
+
+MCInit == InitWith(LeafStart)
 
 Call ==
-    \/ "groups" \in Acts /\ \E g \in Groups, nid \in Nids, ep \in Epochs, p \in Ptrs \cup {-1} : SaveGroup(g, GRec(g, nid, ep, p))
+    \/ "groups" \in Acts /\ \E g \in Groups : \E nid \in NidChoices(g), ep \in Epochs, p \in Ptrs \cup {-1} : SaveGroup(g, GRec(g, nid, ep, p))
     \/ "relays" \in Acts /\ \E g \in Groups, u \in SUBSET Relays : ReplaceRelays(g, u)
     \/ "secrets" \in Acts /\ \E g \in Groups, e \in SecEpochs, v \in SecVals : SaveSecret(g, e, v)
     \/ "msgs" \in Acts /\
@@ -45,12 +48,14 @@ Call ==
           \/ \E id \in WelcomeIds, st \in WelcomeStates : SaveWelcome(id, WRec(id, st))
           \/ \E w \in Wrappers, st \in {"processed", "failed"} : SaveProcessedWelcome(w, PWRec(w, st))
           \/ \E lim \in Lims \cup {-1}, off \in Offs \cup NegOffs : ListPending(lim, off)
-    \/ "mls" \in Acts /\
+    \/ "gd" \in Acts /\
           \/ \E g \in Groups, t \in GdTypes, v \in GdVals : MlsWrite(g, t, v)
           \/ \E g \in Groups, t \in GdTypes : MlsDelete(g, t)
+    \/ "props" \in Acts /\
           \/ \E g \in Groups, r \in PropRefs, v \in GdVals : PropQueue(g, r, v)
           \/ \E g \in Groups, r \in PropRefs : PropRemove(g, r)
           \/ \E g \in Groups : PropClear(g)
+    \/ "ekp" \in Acts /\
           \/ \E g \in Groups, v \in GdVals : EkpWrite(g, 0, 0, v)
           \/ \E g \in Groups : EkpDelete(g, 0, 0)
     \/ "leaves" \in Acts /\
@@ -71,10 +76,20 @@ Call ==
 MCNext == Call /\ Track
 MCSpec == MCInit /\ [][MCNext]_vars
 
-\* ret / dv / seen are observations of the last call, not part of the store's identity
-MCView == <<groups, byNostr, relays, secrets, mls, leafSeq, glob, messages, processed, welcomes, pwelcomes, snaps>>
+\* ret / dv are observations of the last call, not part of the store's identity
+MCView == <<groups, byNostr, relays, secrets, mls, leafSeq, glob, messages, processed, welcomes, pwelcomes, snaps, seen>>
 
 Silent(prop, tag) == TRUE
+
+\* witnesses: each is expected to be VIOLATED in the as-built configuration that can reach the finding
+W_SqlRetakeFails == "SqlRetakeFails" \notin seen
+W_SqlSnapshotNeedsGroupRow == "SqlSnapshotNeedsGroupRow" \notin seen
+W_SqlPruneCountsRows == "SqlPruneCountsRows" \notin seen
+W_SqlRestoreReordersLeaves == "SqlRestoreReordersLeaves" \notin seen
+W_SqlOffsetWraps == "SqlOffsetWraps" \notin seen
+W_SqlLikeIgnoresCase == "SqlLikeIgnoresCase" \notin seen
+W_MemRollbackStealsNostrId == "MemRollbackStealsNostrId" \notin seen
+W_MemOffsetOverflows == "MemOffsetOverflows" \notin seen
 
 TypeInv == IndexOKOrStolen /\ ChildrenOK /\ KeysOK
 PropC09 == [][C09_Step]_vars
